@@ -1,17 +1,88 @@
 /-
   C12 — recovery resumes exactly at the requested token, every time.
-  INTERIM file.  Proved here about the model of the recovery closures
-  (recover.rs after the `fix:` commit): `recover_before*` are stateless;
-  `recover_after*` clear their flag when they fire, so a completed recovery
-  leaves the closure in its initial state.  The theorem for `recover_default`
-  over all invocation histories is in progress; the `recover` family + oracle
-  carries the statement meanwhile.  Recorded finding F07r (a recovery that runs
-  off the end of the text leaves the flag set) is replayed by the check.
+
+  English.  `recover*` / `recover_default` (tephra-combinator/src/control.rs; Lean
+  model `recoverDefault`, `.recover` case of `run`, TephraModel/Run.lean) run the
+  wrapped parser; if it fails and the context has a sink, the error is reported once
+  and `Lexer::advance_to_recover` (model `advanceToRecover` / `recoverLoop`) walks
+  the lexer the combinator was given — peek, ask the recovery closure, next — until
+  the closure says "here".  The closures are `recover_before(tok)`,
+  `recover_before_any`, `recover_after(tok)`, `recover_after_any`
+  (tephra-error/src/recover.rs; model `askRecover`) and the `sep || abort` closure
+  `list` builds.  The `after` closures carry a flag (`found`); the model keeps it
+  in `World.found` under the closure's identity `id`; a lexer carries only the
+  identity (`Lexer.recover : Option Nat`), so all clones of a lexer and all
+  invocations of a parser built from one closure share one flag — clone
+  independence is structural in the model, invocation independence is what is
+  proved here.
+
+  Vocabulary.  `ScanOK` is the scanner contract, `LexIter.Inv` the lexer invariant
+  (every lexer reachable from `Lexer::new` through the public API satisfies it).
+  `AtIdx E m len f K j lx`: `lx` is well formed and its remaining filtered stream
+  (raw tokens with spans) is `K.drop j`; take `K = kept lx`, `j = 0` for "the view of
+  `lx`".  `Peeked … K i lx'`: `lx'` is well formed, its remaining stream is
+  `K.drop i`, and `K[i]` is buffered — its next token is exactly `K[i]`.
+  `recPoint r view` is the recovery point of the driver oracle
+  (TephraModel/Fam/Oracles.lean): the first token of `view` the closure reacts to
+  (`before` kinds), the token after it if there is one (`after` kinds).
+  `specOf W id` is the closure registered under `id`; `FlagClear id W` is
+  `id ∉ W.found`; `logged W ctx e` is `W` with `ctx.apply e` appended to the sink log.
+
+  * `C12_advance_before` (1): `before` kinds — `advance_to_recover` returns a lexer
+    peeked at index `j + p` where `recPoint r (K.drop j) = some p`, i.e. at the first
+    token from the lexer's position on whose kind matches (`C12_recovery_point_first`
+    spells `first` out); if there is none it fails.  The world is unchanged.  No
+    hypothesis on the flags.
+  * `C12_advance_after` (2): `after` kinds entered with the flag clear — the lexer is
+    peeked at the token after the first matching one, the world is unchanged (flag
+    clear again); if the matching token is the last one, or there is none, it fails
+    (in the first case the flag stays set — that is F07r).
+  * `C12_recover_default` (3): the wrapped parser failed with `e`: without a sink
+    `e` comes back and nothing else happens; with a sink exactly one entry
+    `ctx.apply e` is appended and the result is the placeholder with the lexer
+    peeked at the recovery point *of the lexer the combinator was given* (not of the
+    place where the wrapped parser stopped), or the recovery error `⟨[], .recover⟩`
+    when there is none.  Hypotheses: `id` is fresh or already stands for `r` before
+    the call (`C12_specs_stable`: nothing can unregister it), and for the `after`
+    kinds the flag is clear after the wrapped parser ran.  (Success of the wrapped
+    parser is transparent: `C08_recover_success_transparent`.)
+  * `C12_every_time_*` (4): (a) `before` kinds: (3) from *any* world
+    (`C12_every_time_before`).  (b) `after` kinds: every successful return of
+    `recover_default` leaves the flag clear (`C12_every_time_flag_invariant`, any
+    wrapped parser); for wrapped parsers of the PEG family (`Spec.supported`, which
+    cannot touch the world: `C12_supported_world`) one invocation from a *ready* world
+    does what (3) says and, if it returns `ok`, leaves the world ready
+    (`C12_every_time_invocation`); hence over `Fam.RunF.invoke`, `k` invocations of
+    the same node, every invocation reached through invocations that left the world
+    ready satisfies (3) for the view of the lexer it was given (`C12_every_time`);
+    for the `before` kinds failed invocations leave the world ready too, so every
+    invocation is covered (`C12_every_time_before_all`).  `C12_every_time` assumes
+    `BodyKeepsInv` (a successful wrapped parser returns a well-formed lexer: part of
+    C06, shown here for `one k` in `C12_bodyKeepsInv_one`).
+  * `C12_finding_F07r` (5): without the flag hypothesis (3) is false: text `;`,
+    `recover_option(one(a), recover_after(';'))`, sink, two invocations: the first
+    returns the recovery error and leaves the flag set, the second returns
+    `ok(None)` positioned at the `;` (`C12_finding_F07r_twice`);
+    `C12_F07r_characterised`: in general, entered with the flag set the combinator
+    "recovers" at the very next token of the lexer it was given.
+  * `C12_stabilize_clears` (6): a successful `stabilize` returns a lexer with the
+    recover state cleared.
+
+  Lean: `Tephra.RecoverProof.*` (TephraProofs/RecoverProof.lean),
+  `Tephra.RecoverFrame.*` (TephraProofs/RecoverFrame.lean).  Unbounded in the text,
+  the scanner, the filter, the wrapped parser (except where `Spec.supported` is
+  stated), the world.
 -/
 import TephraModel.Run
+import TephraModel.Fam.Oracles
+import TephraProofs.RecoverProof
 
 namespace Tephra.Props
-open Tephra
+open Tephra Tephra.Spec Tephra.BracketRefine Tephra.LexIter Tephra.RecoverProof
+open Tephra.Fam.Oracles (recPoint)
+open Tephra.RecoverFrame (specOf)
+
+/-! ### the closures (interim theorems, kept) -/
 
 theorem C12_before_stateless (W : World) (id k : Nat) (t : Tok)
     (h : (W.specs.find? (·.1 == id)).map (·.2) = some (.before k)) :
@@ -29,5 +100,223 @@ theorem C12_after_arms (W : World) (id k : Nat) (t : Tok)
     (hk : t.kind = k) :
     askRecover W id t = (false, { W with found := id :: W.found }) := by
   simp [askRecover, h, hf, hk]
+
+/-! ### reading `recPoint` -/
+
+/-- `recPoint` for the `before` kinds is the first token the closure reacts to … -/
+theorem C12_recPoint_before {r : Rec} (h : isBefore r = true) (view : List (RawTok Tok)) :
+    recPoint r view = firstHit r view := recPoint_before h view
+
+/-- … for the `after` kinds the token after it, if there is one. -/
+theorem C12_recPoint_after {r : Rec} (h : isAfter r = true) (view : List (RawTok Tok)) :
+    recPoint r view = (firstHit r view).bind fun i => if i + 1 < view.length then some (i + 1) else none :=
+  recPoint_after h view
+
+/-- "first": `firstHit r (K.drop j) = some d` iff `K[j+d]` matches and no token of
+`K` with index in `[j, j+d)` does. -/
+theorem C12_recovery_point_first {r : Rec} {K : List (RawTok Tok)} {j d : Nat} :
+    firstHit r (K.drop j) = some d ↔
+      ∃ x, K[j + d]? = some x ∧ hit r x.tok.kind = true ∧
+        ∀ i x', j ≤ i → i < j + d → K[i]? = some x' → hit r x'.tok.kind = false :=
+  firstHit_some_iff
+
+theorem C12_recovery_point_none {r : Rec} {K : List (RawTok Tok)} {j : Nat} :
+    firstHit r (K.drop j) = none ↔ ∀ i x, j ≤ i → K[i]? = some x → hit r x.tok.kind = false :=
+  firstHit_none_iff
+
+/-! ### 1, 2: `advance_to_recover` -/
+
+theorem C12_advance_before {m : Metrics} {len : Nat} {f : Option Nat} (R : RunEnv) (ok : ScanOK R.E m len)
+    {K : List (RawTok Tok)} {j : Nat} {lx : Lx} {W : World} {id : Nat} {r : Rec}
+    (hrec : lx.recover = some id) (hs : specOf W id = some r) (hb : isBefore r = true)
+    (hat : AtIdx R.E m len f K j lx) :
+    match recPoint r (K.drop j) with
+    | some d => ∃ lx', advanceToRecover R lx W = (some lx', W) ∧ Peeked R.E m len f K (j + d) lx'
+    | none => advanceToRecover R lx W = (none, W) :=
+  advance_before R ok hrec hs hb hat
+
+theorem C12_advance_after {m : Metrics} {len : Nat} {f : Option Nat} (R : RunEnv) (ok : ScanOK R.E m len)
+    {K : List (RawTok Tok)} {j : Nat} {lx : Lx} {W : World} {id : Nat} {r : Rec}
+    (hrec : lx.recover = some id) (hs : specOf W id = some r) (ha : isAfter r = true)
+    (hf : FlagClear id W) (hat : AtIdx R.E m len f K j lx) :
+    match recPoint r (K.drop j) with
+    | some p => ∃ lx', advanceToRecover R lx W = (some lx', W) ∧ Peeked R.E m len f K (j + p) lx'
+    | none => advanceToRecover R lx W =
+        (none, if (firstHit r (K.drop j)).isSome then { W with found := id :: W.found } else W) :=
+  advance_after R ok hrec hs ha hf hat
+
+/-! ### 3: `recover_default` -/
+
+/-- nothing can unregister or re-point a registered closure -/
+theorem C12_specs_stable (R : RunEnv) (n : Nat) (g : G) (lx : Lx) (ctx : Ctx) (W : World) (i : Nat) (r : Rec)
+    (h : specOf W i = some r) : specOf (run R n g lx ctx W).2 i = some r :=
+  RecoverFrame.run_specs_stable R n g lx ctx W i r h
+
+theorem C12_recover_default {m : Metrics} {len : Nat} {f : Option Nat} (R : RunEnv) (ok : ScanOK R.E m len)
+    {K : List (RawTok Tok)} {j : Nat} {lx : Lx} (hat : AtIdx R.E m len f K j lx)
+    (n : Nat) (dv : Val) (id : Nat) (r : Rec) (body : G) (ctx : Ctx) (W W1 : World) (e : PErr)
+    (hW : specOf W id = none ∨ specOf W id = some r)
+    (hbody : run R n body lx ctx (W.register id r) = (.err e, W1))
+    (hflag : isBefore r = true ∨ FlagClear id W1) :
+    (ctx.sink = false → recoverDefault R (n + 1) dv id r body lx ctx W = (.err e, W1)) ∧
+    (ctx.sink = true →
+      match recPoint r (K.drop j) with
+      | some p => ∃ lx', recoverDefault R (n + 1) dv id r body lx ctx W = (.ok dv lx', logged W1 ctx e) ∧
+          Peeked R.E m len f K (j + p) lx'
+      | none => ∃ W', recoverDefault R (n + 1) dv id r body lx ctx W = (.err ⟨[], .recover⟩, W') ∧
+          (W' = logged W1 ctx e ∨
+            (isAfter r = true ∧ W' = { logged W1 ctx e with found := id :: W1.found }))) :=
+  ⟨recoverDefault_fail_nosink R n dv id r body lx ctx W W1 e hbody,
+   recoverDefault_fail_sink' R ok hat n dv id r body ctx W W1 e hW hbody hflag⟩
+
+/-! ### 4: every time -/
+
+/-- (a) `before` kinds: the statement of (3) from any world — no hypothesis on `found`. -/
+theorem C12_every_time_before {m : Metrics} {len : Nat} {f : Option Nat} (R : RunEnv) (ok : ScanOK R.E m len)
+    {K : List (RawTok Tok)} {j : Nat} {lx : Lx} (hat : AtIdx R.E m len f K j lx)
+    (n : Nat) (dv : Val) (id : Nat) (r : Rec) (body : G) (ctx : Ctx) (W W1 : World) (e : PErr)
+    (hb : isBefore r = true)
+    (hW : specOf W id = none ∨ specOf W id = some r)
+    (hbody : run R n body lx ctx (W.register id r) = (.err e, W1)) (hsink : ctx.sink = true) :
+    match recPoint r (K.drop j) with
+    | some p => ∃ lx', recoverDefault R (n + 1) dv id r body lx ctx W = (.ok dv lx', logged W1 ctx e) ∧
+        Peeked R.E m len f K (j + p) lx'
+    | none => recoverDefault R (n + 1) dv id r body lx ctx W = (.err ⟨[], .recover⟩, logged W1 ctx e) := by
+  have := recoverDefault_fail_sink' R ok hat n dv id r body ctx W W1 e hW hbody (Or.inl hb) hsink
+  cases hp : recPoint r (K.drop j) with
+  | some p => rw [hp] at this; exact this
+  | none =>
+    rw [hp] at this
+    obtain ⟨W', h1, h2⟩ := this
+    rcases h2 with rfl | ⟨ha, _⟩
+    · exact h1
+    · cases r <;> simp_all [isBefore, isAfter]
+
+/-- (b) invariant, any wrapped parser: a successful return leaves the flag clear. -/
+theorem C12_every_time_flag_invariant {m : Metrics} {len : Nat} {f : Option Nat} (R : RunEnv)
+    (ok : ScanOK R.E m len) {K : List (RawTok Tok)} {j : Nat} {lx : Lx} (hat : AtIdx R.E m len f K j lx)
+    (n : Nat) (dv : Val) (id : Nat) (r : Rec) (body : G) (ctx : Ctx) (W W1 : World) (res : RRes)
+    (hbody : run R n body lx ctx (W.register id r) = (res, W1))
+    (hs : specOf W1 id = some r) (hf : FlagClear id W1)
+    (v : Val) (lx' : Lx) (W' : World)
+    (h : recoverDefault R (n + 1) dv id r body lx ctx W = (.ok v lx', W')) : FlagClear id W' :=
+  recoverDefault_ok_flagClear R ok hat n dv id r body ctx W W1 res hbody hs hf v lx' W' h
+
+/-- a grammar of the PEG family does not touch the world -/
+theorem C12_supported_world (R : RunEnv) (n : Nat) (g : G) (lx : Lx) (ctx : Ctx) (W : World)
+    (h : Spec.supported g = true) : (run R n g lx ctx W).2 = W :=
+  RecoverFrame.run_supported_world R n g lx ctx W h
+
+/-- (b) one invocation from a ready world. -/
+theorem C12_every_time_invocation {m : Metrics} {len : Nat} {f : Option Nat} (R : RunEnv) (ok : ScanOK R.E m len)
+    {lx : Lx} (inv : Inv R.E m len f lx) (n : Nat) (dv : Val) (id : Nat) (r : Rec) (body : G) (ctx : Ctx)
+    (W : World) (hsup : Spec.supported body = true) (hready : Ready id r W) :
+    Outcome R m len f ctx dv id r (kept R.E m len lx) (W.register id r)
+      (run R n body lx ctx (W.register id r)).1
+      (recoverDefault R (n + 1) dv id r body lx ctx W).1 (recoverDefault R (n + 1) dv id r body lx ctx W).2 ∧
+    (∀ v lx', (recoverDefault R (n + 1) dv id r body lx ctx W).1 = .ok v lx' →
+      Ready id r (recoverDefault R (n + 1) dv id r body lx ctx W).2) :=
+  recoverDefault_ready R ok inv n dv id r body ctx W hsup hready
+
+/-- (b) `k` invocations of the same `recover` node, as the driver performs them. -/
+theorem C12_every_time {m : Metrics} {len : Nat} {f : Option Nat} (R : RunEnv) (ok : ScanOK R.E m len)
+    (ctx : Ctx) (v id : Nat) (a : G) (r : Rec)
+    (hsup : Spec.supported a = true) (hkeep : BodyKeepsInv R m len f a)
+    (k : Nat) (lx : Lx) (W : World) (inv : Inv R.E m len f lx) (hready : Ready id r W) :
+    Explained (Ready id r) (Step R m len f ctx v id a r (Fam.RunF.fuel - 2)) lx W
+      (Fam.RunF.invoke R (.recover v id a r) ctx k lx W).1 :=
+  invoke_explained R ok ctx v id a r hsup hkeep k lx W inv hready
+
+/-- (a) over `invoke`: for the `before` kinds every outcome leaves the world ready,
+so the `fail` steps of `Explained` always continue. -/
+theorem C12_every_time_before_all {m : Metrics} {len : Nat} {f : Option Nat} {R : RunEnv} {ctx : Ctx} {dv : Val}
+    {id : Nat} {r : Rec} {K : List (RawTok Tok)} {W : World} {br res : RRes} {W' : World}
+    (hb : isBefore r = true) (hready : Ready id r W)
+    (h : Outcome R m len f ctx dv id r K (W.register id r) br res W') : Ready id r W' :=
+  ready_after_fail_before hb hready h
+
+theorem C12_bodyKeepsInv_one {m : Metrics} {len : Nat} {f : Option Nat} (R : RunEnv) (ok : ScanOK R.E m len)
+    (k : Nat) : BodyKeepsInv R m len f (.one k) :=
+  bodyKeepsInv_one R ok k
+
+/-! ### 5: finding F07r -/
+
+/-- The statement of (3) without the flag hypothesis is false. -/
+theorem C12_finding_F07r : ¬ recoverDefault_noflag_statement := finding_F07r
+
+/-- The witness, as the driver runs it: two invocations on the text `;`. -/
+theorem C12_finding_F07r_twice :
+    Fam.RunF.invoke F07r.R F07r.g F07r.ctx0 2 F07r.lx0 World.init
+      = ([.err ⟨[], .recover⟩, .ok .none F07r.lxr], F07r.W2) ∧
+    recPoint (.after 5) (kept F07r.R.E F07r.m0 1 F07r.lx0) = none ∧
+    F07r.lxr.peekTokenSpan = some ⟨⟨0, 0, 0⟩, ⟨1, 0, 1⟩⟩ :=
+  ⟨F07r.twice, F07r.noPoint, by simp [F07r.lxr, Lexer.peekTokenSpan, Span.enclosing]⟩
+
+/-- In general: entered with the flag set, the combinator "recovers" at the very
+next token of the lexer it was given and clears the flag. -/
+theorem C12_F07r_characterised {m : Metrics} {len : Nat} {f : Option Nat} (R : RunEnv) (ok : ScanOK R.E m len)
+    {K : List (RawTok Tok)} {j : Nat} {lx : Lx} (hat : AtIdx R.E m len f K j lx)
+    (n : Nat) (dv : Val) (id : Nat) (r : Rec) (body : G) (ctx : Ctx) (W W1 : World) (e : PErr)
+    (hbody : run R n body lx ctx (W.register id r) = (.err e, W1))
+    (hs : specOf W1 id = some r) (ha : isAfter r = true) (hflag : id ∈ W1.found) (hsink : ctx.sink = true)
+    (hj : j < K.length) :
+    ∃ lx', recoverDefault R (n + 1) dv id r body lx ctx W =
+        (.ok dv lx', { logged W1 ctx e with found := W1.found.erase id }) ∧
+      Peeked R.E m len f K j lx' :=
+  recoverDefault_fail_sink_armed R ok hat n dv id r body ctx W W1 e hbody hs ha hflag hsink hj
+
+/-! ### 6: `stabilize` -/
+
+theorem C12_stabilize_clears (R : RunEnv) (n : Nat) (a : G) (lx : Lx) (ctx : Ctx) (W : World) (v : Val)
+    (lx' : Lx) (W' : World) (h : run R n (.stabilize a) lx ctx W = (.ok v lx', W')) : lx'.recover = none :=
+  stabilize_clears R n a lx ctx W v lx' W' h
+
+/-! ### non-vacuity -/
+section NonVacuity
+open Tephra.BracketRefine.Witness
+
+/-- text `a ; b` (kinds 0 5 1), table scanner -/
+def nvR : RunEnv := ⟨tabEnv [0, 5, 1], []⟩
+def nvLx : Lx := Lexer.new 0 F07r.m0 3
+
+theorem nv_view : kept nvR.E F07r.m0 3 nvLx =
+    [⟨⟨0, 0⟩, ⟨0,0,0⟩, ⟨1,0,1⟩⟩, ⟨⟨5, 0⟩, ⟨1,0,1⟩, ⟨2,0,2⟩⟩, ⟨⟨1, 0⟩, ⟨2,0,2⟩, ⟨3,0,3⟩⟩] := by
+  simp [kept, LexIter.rawAt, Spec.rawFrom, nvR, tabEnv, scanTab, nvLx, Lexer.new, Pos.zero, LexIter.keepOf]
+
+theorem nv_ok : ScanOK nvR.E F07r.m0 3 := tab_ok [0, 5, 1] F07r.m0
+
+theorem nv_at : AtIdx nvR.E F07r.m0 3 none (kept nvR.E F07r.m0 3 nvLx) 0 (nvLx.setRecoverState (some 7)) :=
+  setRecoverState_at (some 7) ⟨inv_fresh 0 none, rfl⟩
+
+/-- `recover_before(';')` on `a ; b`: hypotheses satisfiable, conclusion: peeked at index 1. -/
+example (W : World) (hs : specOf W 7 = some (.before 5)) :
+    ∃ lx', advanceToRecover nvR (nvLx.setRecoverState (some 7)) W = (some lx', W) ∧
+      Peeked nvR.E F07r.m0 3 none (kept nvR.E F07r.m0 3 nvLx) 1 lx' := by
+  have := C12_advance_before nvR nv_ok (W := W) rfl hs rfl nv_at
+  have hp : recPoint (.before 5) (List.drop 0 (kept nvR.E F07r.m0 3 nvLx)) = some 1 := by
+    rw [List.drop_zero, nv_view]; simp [recPoint, List.findIdx?_cons]
+  rw [hp] at this
+  simpa using this
+
+/-- `recover_after(';')` on `a ; b`, flag clear: peeked at index 2, world unchanged. -/
+example (W : World) (hs : specOf W 7 = some (.after 5)) (hf : FlagClear 7 W) :
+    ∃ lx', advanceToRecover nvR (nvLx.setRecoverState (some 7)) W = (some lx', W) ∧
+      Peeked nvR.E F07r.m0 3 none (kept nvR.E F07r.m0 3 nvLx) 2 lx' := by
+  have := C12_advance_after nvR nv_ok (W := W) rfl hs rfl hf nv_at
+  have hp : recPoint (.after 5) (List.drop 0 (kept nvR.E F07r.m0 3 nvLx)) = some 2 := by
+    rw [List.drop_zero, nv_view]; simp [recPoint, List.findIdx?_cons]
+  rw [hp] at this
+  simpa using this
+
+/-- a ready world exists (the initial one), for every closure -/
+example (id : Nat) (r : Rec) : Ready id r World.init :=
+  ⟨Or.inl rfl, Or.inr (by simp [FlagClear, World.init])⟩
+
+/-- (3) is not vacuous: in the F07r setting the *first* invocation satisfies all its
+hypotheses (flag clear) and its `none` branch is what happens. -/
+example : recoverDefault F07r.R 3 .none 7 (.after 5) F07r.body F07r.lx0 F07r.ctx0 World.init
+    = (.err ⟨[], .recover⟩, F07r.W1) := F07r.first_rd 0
+
+end NonVacuity
 
 end Tephra.Props
